@@ -195,7 +195,12 @@ def c11(tier: str) -> int:
     utvs = [(T, v, 0) for (T, v) in tvs if T['k'] == 'union']
     st2 = pipeline.run_events(rep, utvs, C11_CLAUSES, label='c11s', make_event=conv.ev_unionser, reverse=False,
                               child_event=conv.ev_from_data)
-    rep.extra['replay'] = {'from_data': st1, 'into_data': st2}
+    # the shipped union in disguise: pane.types.ValueOrList[T] reads as Union[T, List[T]] and must say which one it read
+    res2 = engine.model_check('MC_Grammar', SHIPPED_CFGS[tier], dump=True)
+    rep.add_mc(res2, SHIPPED_CFGS[tier])
+    vols = [(T, v, 0) for (T, v) in pipeline.cases_from_states(engine.dump_states(res2)) if '"vol"' in json.dumps(T)]
+    st3 = pipeline.run_events(rep, vols, C11_CLAUSES, label='c11v', make_event=conv.ev_from_data, reverse=False)
+    rep.extra['replay'] = {'from_data': st1, 'into_data': st2, 'value_or_list': st3}
     rep.assumptions += ['small-scope: all ordered pairs of the member pool (thorough: nested/wrapped once more)',
                         'projection functions harness/vocab.py are trusted']
     return rep.finish()
